@@ -542,6 +542,17 @@ func genScenario(rng *rand.Rand) (scenCfg, []envEvent, []inst.Window, time.Durat
 			envEvent{at: tr, kind: "post", a: a, mode: "resolve"},
 			envEvent{at: tr + time.Duration(200+rng.Intn(1500))*time.Millisecond, kind: "reload"})
 	}
+	if cfg.Inhibit && rng.Intn(3) == 0 {
+		// two reloads with a garbage collection of the alert store (every 30 minutes) between them,
+		// then an inhibiting source and its target: the inhibitor started by the second reload must
+		// still be fed by the store
+		gc := 30 * time.Minute
+		evs = append(evs, envEvent{at: gc - time.Duration(2+rng.Intn(20))*time.Minute + 311*time.Millisecond, kind: "reload"},
+			envEvent{at: gc + time.Duration(30+rng.Intn(120))*time.Second + 312*time.Millisecond, kind: "reload"},
+			envEvent{at: gc + 4*time.Minute + 313*time.Millisecond, kind: "post", a: "A4", mode: "fire"},
+			envEvent{at: gc + 4*time.Minute + 20*time.Second + 314*time.Millisecond, kind: "post", a: "A1", mode: "fire"})
+		horizon = max(horizon, gc+6*time.Minute+2*cfg.maxT().gi)
+	}
 	sort.SliceStable(evs, func(i, j int) bool { return evs[i].at < evs[j].at })
 	return cfg, evs, ws, horizon
 }
